@@ -130,7 +130,7 @@ impl PathProp {
                 o.min_frac = 0.01;
             }
             "C03" => {
-                o.families = vec!["thin_wall", "thin_wall", "shell_door", "shell_door", "balls", "goal_overlap"];
+                o.families = vec!["thin_wall", "thin_wall", "shell_door", "shell_door", "balls", "goal_overlap", "slivers", "slivers"];
                 o.max_iters = if big { 300 } else { 150 };
             }
             "C04" => {
